@@ -290,14 +290,14 @@ def explore_markup(S, K, want=('C08',)):
                 ctx.witness('mixed text and code')
         return body
 
+    tasks = []
     for k in range(1, K + 1):
         for combo in sequences(k):
-            ob, ex = S.explore('markup[%s]' % ','.join(combo), 'convert_markup_impl over children %r, every scope / context / multiline flag' % (combo,),
-                               make_body(combo), bounds=dict(children=k))
-            for lab, mdl, info in ex.violations:
-                found.append((lab, info))
-            if ob.status.startswith('inconclusive'):
-                return found
+            tasks.append(('markup[%s]' % ','.join(combo), 'convert_markup_impl over children %r, every scope / context / multiline flag' % (combo,),
+                          make_body(combo), dict(children=k)))
+    for ob, viol in S.explore_batch(tasks):
+        for lab, mdl, info in viol:
+            found.append((lab, info))
     return found
 
 
